@@ -22,6 +22,19 @@ func rewrites(sched bool) []rewrite {
 			}
 			return bytes.Replace(src, pat, []byte("verifNow()"), 1), nil
 		}},
+		// synchronizer.go: the harness gives replicas a view timer that never fires (timeouts are
+		// explorer-chosen events). A pending time.AfterFunc keeps its closure - and through it the whole
+		// replica - reachable from the runtime's timer heap, i.e. every replica ever built by an
+		// exploration stays in memory. Route the call through inject/.../zz_verif_timer.go, which
+		// creates such never-firing timers already stopped. Memory only: if the line has changed the
+		// file is left as it is.
+		{file: "protocol/synchronizer/synchronizer.go", apply: func(_ string, src []byte) ([]byte, error) {
+			pat := []byte("time.AfterFunc(d, func() {")
+			if bytes.Count(src, pat) != 1 {
+				return src, nil
+			}
+			return bytes.Replace(src, pat, []byte("verifAfterFunc(d, func() {"), 1), nil
+		}},
 	}
 	if sched {
 		rws = append(rws, schedRewrites()...)
